@@ -1,10 +1,10 @@
 PLAN['C15'] = dict(
     level='exploration',
     units=std_units('C15', [('asan', 'sdcz', 12000, 150000), ('asan-vb', 'sdcz', 3600, 40000), ('asan-i64', 'sdcz', 3600, 30000)], chunk=100),
-    rule='structurally nonsingular generated matrices (zero diagonals by row relabelling, exactly zero columns / leading entries, duplicated leading columns) x ILU option lattice (drop rules incl. secondary rules with and without interpolation, tolerances 0..1, fill factors, norms, MILU variants, MC64 on/off, Trans, orderings, thresholds, Equil) x NC/NR x tunings x malloc/workspace; '
-         'info against the count of pivot-replacement events from the guarded hooks, structure, bijections, U diagonal, restored index arrays, X against the solve defined by the returned factors (residual w.r.t. Pr^T L U Pc^T), exactness when dropping is off and nothing was replaced',
+    rule='structurally nonsingular generated matrices (zero diagonals by row relabelling, exactly zero columns / leading entries, duplicated leading columns) x ILU option lattice (drop rules incl. secondary rules with and without interpolation, tolerances 0..1, fill factors, norms, MILU variants, MC64 on/off, Trans, orderings, thresholds, Equil) x NC/NR x tunings x malloc/workspace x chosen first capacities of the factor arrays (guarded hook), plus a 6x6 family with equations/unknowns in units beyond sqrt(overflow) and a stored zero (MC64 scaling rejected, ?gsequ fallback); '
+         'info against the count of pivot-replacement events from the guarded hooks, structure, bijections, U diagonal, restored index arrays, finite values of the returned A, X against the solve defined by the returned factors (residual w.r.t. Pr^T L U Pc^T), exactness when dropping is off and nothing was replaced',
     counter_names=['gsisx calls', 'pivot replacement events', 'max preconditioner-solve residual/bound per-mille', 'solutions judged', 'no-drop exactness verdicts'],
     min_nontrivial={'quick': 1500, 'thorough': 80000},
-    require_tags={'quick': ['pivots-replaced', 'nodrop-exactness-judged', 'rowperm=1', 'rowperm=0', 'milu=0', 'milu=1', 'milu=2', 'milu=3', 'rule=0x0', 'trans=1', 'trans=2', 'NR', 'mem=workspace', 'info=replaced']},
+    require_tags={'quick': ['pivots-replaced', 'nodrop-exactness-judged', 'rowperm=1', 'rowperm=0', 'milu=0', 'milu=1', 'milu=2', 'milu=3', 'rule=0x0', 'trans=1', 'trans=2', 'NR', 'mem=workspace', 'info=replaced', 'capacity-start', 'units-beyond-sqrt-overflow']},
     assumptions=['the event hooks (guard SLU_VERIF_HOOKS) report each pivot replacement once', 'bound constant c = 8 / 16'],
 )
